@@ -129,12 +129,12 @@ func runC19(w *fw.Worker) {
 
 type c19Style struct {
 	Stroke, Fill, Dash, Linecap string
-	Width                        float64
+	Width                       float64
 }
 
 type c19Font struct {
 	Family, Style, Baseline, Anchor, Spacing string
-	Size, Weight                              float64
+	Size, Weight                             float64
 }
 
 type c19Shape struct {
